@@ -148,7 +148,52 @@ func bsWorldGen(r *Run, rng *Rng, w *bsWorld, steps int, allowRm bool) {
 	g.tip = bn - 1
 	halted := false
 	directedBack := false
+	directedOdd := false
 	for s := 0; s < steps; s++ {
+		if !directedOdd && !halted && s >= steps/2 && !w.p.IsHalted() {
+			// directed: a block of three deposits whose first index is ODD; one write statement in the middle of the SECOND
+			// deposit's tree update fails (the first deposit's hashes are already in the frontier, the second has begun to
+			// overwrite them), the transaction is rolled back and the driver retries the block in the same process
+			directedOdd = true
+			pos := 0
+			mkDep := func() string {
+				pos++
+				tok := fmt.Sprintf("b;%d;%d;%d;%d;%s;%d;%s;%s;%s;%d;%s;%s;%s;%s", pos, g.nextDC, rng.Intn(2), bsNet(rng), hx(rng.Bytes(20)), bsNet(rng),
+					hx(rng.Bytes(20)), bsAmount(rng), bsMeta(rng), 1700000000+bn, hx(rng.Bytes(32)), hx(rng.Bytes(20)), hx(rng.Bytes(rng.Intn(12))), "0")
+				g.nextDC++
+				return tok
+			}
+			ok := true
+			if g.nextDC%2 == 0 {
+				g.dcAtBlock[bn] = g.nextDC
+				if w.exec(r, fmt.Sprintf("blk %d - %s", bn, mkDep())) != "ok" {
+					ok = false
+				}
+				g.tip = bn
+				bn++
+			}
+			if ok {
+				g.dcAtBlock[bn] = g.nextDC
+				evs := mkDep() + " " + mkDep() + " " + mkDep()
+				// statements: 1 block row, then 34 per deposit (33 tree writes + its own row)
+				for _, k := range []int{1 + 34 + 7, 1 + 34 + 20} {
+					if obs := w.exec(r, fmt.Sprintf("blk %d %d %s", bn, k, evs)); obs == "ok" {
+						break
+					}
+				}
+				if !w.lastBlockStored(bn) {
+					if obs := w.exec(r, fmt.Sprintf("blk %d - %s", bn, evs)); obs != "ok" {
+						r.Fail("[C07] retrying a well-formed block after a storage fault did not succeed: "+obs, append([]string{"new"}, w.lines...))
+					}
+				}
+				w.compareWithTwin(r, "after a fault inside the second deposit of a block starting at an odd index, retried")
+				g.tip = bn
+				bn++
+				w.probe(r, g)
+				r.Count("branch:directed-odd-index-fault-in-second-deposit")
+			}
+			continue
+		}
 		if !directedBack && !halted && s >= steps/3 && g.nextDC >= 2 && !w.p.IsHalted() {
 			// directed: the chain announces a deposit count the node already holds (it went BACKWARDS): as much an inconsistency
 			// as a forward gap — the syncer has to halt
